@@ -143,6 +143,8 @@ struct HarnessBase {
   virtual void close_writer() = 0;
   virtual void flush_writer() = 0;
   virtual bool read_one(int k) = 0;
+  virtual bool read_one_into_kept(int k) = 0;
+  virtual void clear_queues() = 0;
   virtual bool read_batch(int k, size_t n, size_t& got) = 0;
   virtual void write_one(int k) = 0;
   virtual void write_batch(int k, size_t n, size_t& put) = 0;
@@ -225,12 +227,22 @@ static json run_one(json const& run, std::vector<std::string> const& inputs) {
         h->close_reader(); h->drop_reader();
       }
       json calls = json::array();
+      std::vector<std::unique_ptr<SimInBuf>> extra_bufs;
+      std::vector<std::unique_ptr<std::istream>> extra_ins;
       for (auto const& c : run["script"]) {
         std::string what = c[0];
         json cr; cr["r"] = "ok";
         phase = "script";
         try {
           if (what == "mkR") h->make_reader(c[1], in);
+          else if (what == "mkRI") {
+            // a reader over another input of the plan (the caller opens the next file with the same variables at hand)
+            extra_bufs.push_back(std::make_unique<SimInBuf>(inputs.at(c[2].get<size_t>()), 0, 1));
+            extra_ins.push_back(std::make_unique<std::istream>(extra_bufs.back().get()));
+            h->make_reader(c[1], *extra_ins.back());
+          }
+          else if (what == "R1D") { bool ok = h->read_one_into_kept(c[1]); cr["r"] = ok ? "ok" : "end"; }
+          else if (what == "CLRQ") h->clear_queues();
           else if (what == "mkW") h->make_writer(c[1], out, c.size() > 2 ? c[2].get<std::string>() : std::string("Current"));
           else if (what == "R1") { bool ok = h->read_one(c[1]); cr["r"] = ok ? "ok" : "end"; }
           else if (what == "RB") { size_t got = 0; bool more = h->read_batch(c[1], c[2], got); cr["r"] = more ? "ok" : "end"; cr["n"] = got; }
@@ -257,6 +269,7 @@ static json run_one(json const& run, std::vector<std::string> const& inputs) {
         calls.push_back(cr);
       }
       res["calls"] = calls;
+      if (!extra_ins.empty()) { try { h->drop_reader(); } catch (...) { res["dtor_threw"] = true; } }   // (before its stream goes)
       phase = "done";
     }
   } catch (...) {
@@ -330,6 +343,7 @@ def emit_harness(ns, versions, protos, copyto) -> str:
         out.append("  void arm(bool on) override { if (fwriter) fwriter->fp.armed = on; if (freader) freader->fp.armed = on; }")
         for k, s in enumerate(steps):
             out.append("  std::deque<%s> q%d;" % (s["type"], k))
+            out.append("  %s kept%d{};      // a destination that the caller keeps and reuses from read to read, from file to file" % (s["type"], k))
         out.append("  std::unique_ptr<%s::%sReaderBase> reader; std::unique_ptr<%s::%sWriterBase> writer;" % (ns, pname, ns, pname))
         out.append("  %s::binary::%sReader* breader = nullptr;" % (ns, pname))
         out.append("  void make_reader(std::string const& fmt, std::istream& in) override {")
@@ -360,6 +374,14 @@ def emit_harness(ns, versions, protos, copyto) -> str:
             else:
                 out.append("    case %d: { %s v; reader->Read%s(v); q%d.push_back(std::move(v)); return true; }" % (k, s["type"], s["pascal"], k))
         out.append('    default: throw std::runtime_error("harness: bad step"); } }')
+        out.append("  bool read_one_into_kept(int k) override { switch (k) {")
+        for k, s in enumerate(steps):
+            if s["stream"]:
+                out.append("    case %d: { bool ok = reader->Read%s(kept%d); if (ok) q%d.push_back(kept%d); return ok; }" % (k, s["pascal"], k, k, k))
+            else:
+                out.append("    case %d: { reader->Read%s(kept%d); q%d.push_back(kept%d); return true; }" % (k, s["pascal"], k, k, k))
+        out.append('    default: throw std::runtime_error("harness: bad step"); } }')
+        out.append("  void clear_queues() override { %s }" % " ".join("q%d.clear();" % k for k in range(len(steps))))
         out.append("  bool read_batch(int k, size_t n, size_t& got) override { switch (k) {")
         for k, s in enumerate(steps):
             if s["stream"]:
